@@ -104,6 +104,52 @@ def _developer_text(prog, f, a):
     return kind == "field" and key[1] == "this" and f.file.endswith("format/format.hpp") and (f.cls or "").split("<")[0].endswith("formatter")
 
 
+def _rolls_back_own_insertion(g, erase_call, fld):
+    """`M.erase(res.first)` where `res` is the local result of `M.emplace(..)` / `M.insert(..)` on the same member in the same function: the
+    iterator names the element that call inserted (`res.second` is tested before by the usual shape; an element that existed before is not
+    touched by erasing a fresh insertion's iterator only if the insertion happened - when it did not, `res.first` names the OLD element, so
+    the erase has to sit under the `res.second` edge or in a handler inside it)"""
+    args = [a for a in erase_call.get("args", []) if not (isinstance(a, dict) and a.get("k") == "defarg")]
+    if len(args) != 1:
+        return False
+    a = ir.unwrap(args[0])
+    while isinstance(a, dict) and a.get("k") in ("cast", "construct") and (a.get("e") is not None or len(a.get("args", [])) == 1):
+        a = ir.unwrap(a.get("e") if a.get("e") is not None else a["args"][0])
+    if not (isinstance(a, dict) and a.get("k") == "member" and short(a.get("field") or "") == "first"):
+        return False
+    base = ir.unwrap(a.get("base"))
+    if not (isinstance(base, dict) and base.get("k") == "ref" and str(base.get("decl", "")).startswith("local:")):
+        return False
+    nm = base["decl"][6:]
+    ok_init = False
+    for _, _, e in g.all_elems():
+        x = e.get("expr")
+        if isinstance(x, dict) and x.get("k") == "decl":
+            for v in x.get("vars", []):
+                if v["name"] == nm and v.get("init") is not None:
+                    i0 = ir.unwrap(v["init"])
+                    while isinstance(i0, dict) and i0.get("k") in ("cast", "construct") and (i0.get("e") is not None or len(i0.get("args", [])) == 1):
+                        i0 = ir.unwrap(i0.get("e") if i0.get("e") is not None else i0["args"][0])
+                    ok_init = isinstance(i0, dict) and i0.get("k") == "call" and short(i0.get("name") or "") in ("emplace", "insert", "try_emplace") \
+                        and isinstance(ir.unwrap(i0.get("this")), dict) and ir.unwrap(i0["this"]).get("field") == fld
+    if not ok_init:
+        return False
+    # position: inside the source range of an `if (res.second)` true arm - the erase's line lies between the condition and the end of the arm.
+    # (handler blocks have no CFG edges; the source range of the guarded statement is what the facts give)
+    ln = erase_call.get("ln") or 0
+    for bid in g.blocks:
+        c = g.term(bid).get("cond")
+        if c is not None and fmt(ir.unwrap(c)) == "%s.second" % nm:
+            tl = g.term(bid).get("ln") or 0
+            arms = [to for to, lab in g.succs(bid) if lab == "true"]
+            joins = [to for to, lab in g.succs(bid) if lab == "false"]
+            # the first statement line of the false successor (the join / else part) bounds the true arm from below
+            after = min([e0.get("ln") for to in joins for e0 in g.elems(to) if e0.get("ln")] or [10 ** 9])
+            if arms and tl <= ln < after:
+                return True
+    return False
+
+
 def _bounded_stack(ctx, prog, cg, entries):
     """R04.12: libstdc++'s std::regex executor is a backtracking matcher that calls itself once per matched character
     (_M_dfs -> _M_rep_once_more -> _M_dfs ...): a token of some ten thousand characters - well inside what execve() passes in one
@@ -585,6 +631,8 @@ def justify_thrower(ctx, prog, lg, fn, n, nm, env, st):
                     for y in walk(e["expr"]):
                         if isinstance(y, dict) and y.get("k") == "call" and short(y.get("name") or "") in ("erase", "clear", "extract", "swap") and y.get("this") is not None \
                                 and isinstance(ir.unwrap(y["this"]), dict) and ir.unwrap(y["this"]).get("field") == fld:
+                            if short(y.get("name") or "") == "erase" and _rolls_back_own_insertion(g, y, fld):
+                                continue  # takes back the element this very call inserted (a failed declaration leaves the map as it was)
                             removers.append(short(g.qual))
             if ctors and all(inserts(g) for g in ctors) and not removers:
                 return True, "at(\"%s\") on %s: every constructor inserts that key and no function erases from the map" % (lits[0], short(fld))
